@@ -480,4 +480,200 @@ Proof.
   - split; [now apply loop_step'|]. split; [exact S1|now apply send_from_loop'].
 Qed.
 
+(* ---------- enter, from a state in which the doers are startable (new or done) ---------- *)
+
+Definition enter_at' (f : nat) : Prop := forall sid (gs : list (gtree T)) s o s' r,
+  enter_own tk f s sid (map gt_top gs) = (s', r) -> oof s' = false ->
+  (forall x, In x (gts_ids gs) -> startable s x = true) ->
+  all (g_wf1 vis z0 (defs s)) gs -> all (g_st1 s) gs -> NoDup (sid :: gts_ids gs) -> out_ok vis s o ->
+  exists its o', tenter (tyme s) gs o = (its, o') /\ r = GReturn /\
+    deeds (get_sched s' sid) = deeds (get_sched s sid) ++ map t_deed its /\
+    ts_ok s' its /\ out_ok vis s' o' /\ frame (gts_ids gs) (sid :: gts_ids gs) s s' /\
+    same_doers s s' /\ (forall x, In x (gts_ids gs) -> ~ In x (ts_ids its) -> endedid s' x).
+
+Definition start_at' (f : nat) : Prop := forall s n (kids : list (gtree T)) o s' r,
+  gen_start tk f s n = (s', r) -> oof s' = false ->
+  (forall x, In x (n :: gts_ids kids) -> startable s x = true) ->
+  all (g_wf1 vis z0 (defs s)) [TGroup n kids] -> all (g_st1 s) [TGroup n kids] ->
+  NoDup (n :: gts_ids kids) -> out_ok vis s o ->
+  exists kids' o', tenter (tyme s) kids o = (kids', o') /\ r = GYield (Some (tabs z0)) /\
+    get_gen s' n = GSusp 1 /\ deeds (get_sched s' n) = map t_deed kids' /\ ts_ok s' kids' /\
+    out_ok vis s' o' /\ frame (n :: gts_ids kids) (n :: gts_ids kids) s s' /\
+    same_doers s s' /\ (forall x, In x (gts_ids kids) -> ~ In x (ts_ids kids') -> endedid s' x).
+
+Lemma start_from_enter' f : enter_at' f -> start_at' (S f).
+Proof.
+  intros En s n kids o s' r E O GN W St ND OK.
+  cbn [all g_wf1 g_st1] in W, St. destruct W as [(NV & [kids0 D] & WK) _]. destruct St as [(Do & Dq & SK) _].
+  pose proof ND as ND'. apply NoDup_cons_iff in ND' as [Nn NDk].
+  assert (Gn : startable s n = true) by (apply GN; now left).
+  rewrite gen_start_S in E. rewrite Gn in E. cbn [negb] in E. rewrite D in E.
+  cbv zeta in E.
+  set (s1 := emit (set_gen s n (GRun 0)) Enter n) in *.
+  change (doers (get_sched s1 n)) with (doers (get_sched s n)) in E. rewrite Do in E.
+  destruct (enter_own tk f s1 n (map gt_top kids)) as [s2 g] eqn:Ee.
+  assert (O2 : oof s2 = false).
+  { destruct g; inversion E; subst s'; rewrite ?oof_set_gen, ?oof_emit in O; try exact O.
+    apply oof_close_own in O. destruct kbd; exact O. }
+  assert (F1 : frame [n] [] s s1).
+  { unfold s1. apply frame_emit. apply frame_gen; [now left|]. apply frame_refl. }
+  assert (GK1 : forall x, In x (gts_ids kids) -> startable s1 x = true).
+  { intros x Hx. rewrite (startable_frame _ _ _ _ _ F1); [apply GN; now right|].
+    intros [Heq|[]]. subst x. contradiction. }
+  assert (OK1 : out_ok vis s1 o) by (unfold s1; apply ok_emit_invis; [exact NV|now apply ok_gen]).
+  assert (SK1 : all (g_st1 s1) kids) by (eapply gs_st_frame; [exact F1| |exact SK]; intros x Hx []).
+  destruct (En n kids s1 o s2 g Ee O2 GK1 WK SK1 ND OK1)
+    as (kids' & o' & Hp & -> & Dq2 & K2 & OK2 & F2 & SD2 & En2).
+  change (tyme s1) with (tyme s) in Hp. change (get_sched s1 n) with (get_sched s n) in Dq2.
+  rewrite Dq in Dq2. cbn [app] in Dq2.
+  inversion E; subst s' r; clear E.
+  assert (Ff : frame [n] [] s2 (set_gen s2 n (GSusp 1))) by (apply frame_gen; [now left|apply frame_refl]).
+  exists kids', o'. split; [exact Hp|]. split; [reflexivity|].
+  split; [apply gen_set_gen_same|]. split; [rewrite sched_set_gen; exact Dq2|].
+  split; [|split; [|split; [|split]]].
+  - apply (ts_ok_frame [n] [] s2 _ kids' Ff); [|exact K2].
+    intros x Hx. split; [|intros []]. intros [Heq|[]]. subst x. apply Nn.
+    eapply subl_In; [exact (proj1 (tenter_wf vis z0 _ (defs s) _ _ _ _ Hp))|exact Hx].
+  - now apply ok_gen.
+  - apply frame_gen; [now left|].
+    eapply frame_trans; [eapply frame_weaken; [| |exact F1]|eapply frame_weaken; [| |exact F2]];
+      intros x Hx; cbn [In] in *; tauto.
+  - apply sd_gen. eapply sd_trans; [|exact SD2]. unfold s1. apply sd_emit, sd_gen, sd_refl.
+  - intros x Hx Hn. eapply endedid_frame; [exact Ff| |intros []|now apply En2].
+    intros [Heq|[]]. subst x. contradiction.
+Qed.
+
+Lemma enter_step' f : enter_at' f -> start_at' f -> enter_at' (S f).
+Proof.
+  intros En St0 sid gs s o s' r E O GN W St ND OK.
+  destruct gs as [|g gs].
+  - cbn [map] in E. rewrite enter_own_S in E. inversion E; subst s' r.
+    exists [], o. split; [reflexivity|]. split; [reflexivity|].
+    split; [now rewrite app_nil_r|]. split; [exact I|]. split; [exact OK|].
+    split; [apply frame_refl|]. split; [apply sd_refl|intros x []].
+  - cbn [map] in E. destruct g as [l|n kids].
+    + cbn [all g_wf1 g_st1 gt_top] in W, St, E. destruct W as [[Dl Vl] WU]. destruct St as [_ SU].
+      rewrite gts_ids_leaf in ND, GN. destruct (nd_leaf _ _ _ ND) as (NDU & Nl & Nls & Ns).
+      assert (Gl : startable s (lf_id l) = true) by (apply GN; now left).
+      destruct (enter_leaf_step' f s sid l _ s' r o E O Gl Dl Vl OK)
+        as (s2 & ov & o1 & Hst & E2 & Dq2 & Hov & OK2 & F2 & SD2 & Gd2).
+      assert (GN2 : forall x, In x (gts_ids gs) -> startable s2 x = true).
+      { intros x Hx. rewrite (startable_frame _ _ _ _ _ F2); [apply GN; now right|].
+        intros [Heq|[]]. subst x. contradiction. }
+      assert (WU2 : all (g_wf1 vis z0 (defs s2)) gs) by (destruct F2 as (_ & -> & _); exact WU).
+      assert (SU2 : all (g_st1 s2) gs).
+      { eapply gs_st_frame; [exact F2| |exact SU]. intros x Hx [Heq|[]]. subst x. contradiction. }
+      assert (T2 : tyme s2 = tyme s) by (destruct F2 as (-> & _); reflexivity).
+      destruct (En sid gs s2 o1 s' r E2 O GN2 WU2 SU2 NDU OK2)
+        as (its & o' & Hp & -> & Dq' & G' & OK' & F' & SD' & En').
+      rewrite T2 in Hp. rewrite tenter_cons. cbn [tenter1]. rewrite Hst, Hp. rewrite Dq', Dq2, <- app_assoc.
+      rewrite gts_ids_leaf.
+      assert (FF : frame (lf_id l :: gts_ids gs) (sid :: lf_id l :: gts_ids gs) s s').
+      { eapply frame_trans; [eapply frame_weaken; [| |exact F2]|eapply frame_weaken; [| |exact F']];
+          intros x Hx; cbn [In] in *; tauto. }
+      assert (SDD : same_doers s s') by (eapply sd_trans; eassumption).
+      assert (Dl' : leaf_in (defs s') l).
+      { destruct F' as (_ & -> & _). destruct F2 as (_ & -> & _). exact Dl. }
+      destruct ov as [v|]; cbn [option_map].
+      * destruct Hov as [Gv Lv].
+        assert (Li : lv_id v = lf_id l) by (unfold lv_id; now rewrite Lv).
+        eexists _, _. split; [reflexivity|]. split; [reflexivity|]. split; [reflexivity|].
+        split; [|split; [exact OK'|split; [exact FF|split; [exact SDD|]]]].
+        -- cbn [all t_ok1]. split; [|exact G'].
+           eapply lv_ok_frame; [exact F'| |exact Gv]. rewrite Li. exact Nl.
+        -- intros x Hx Hn. rewrite ts_ids_leaf, Li in Hn. apply En'.
+           ++ destruct Hx as [Heq|Hx]; [exfalso; apply Hn; now left|exact Hx].
+           ++ intro. apply Hn. now right.
+      * eexists _, _. split; [reflexivity|]. split; [reflexivity|]. split; [reflexivity|].
+        split; [exact G'|]. split; [exact OK'|split; [exact FF|split; [exact SDD|]]].
+        intros x [Heq|Hx] Hn; [|now apply En'].
+        subst x. apply ended_leaf; [|exact Dl'].
+        destruct F' as (_ & _ & FG & _). rewrite FG; [now apply Gd2|exact Nl].
+    + pose proof W as W0. pose proof St as St0'.
+      cbn [all g_wf1 g_st1 gt_top] in W, St, E. destruct W as [(NV & Dn & WK) WU]. destruct St as [(Do & Dq & SK) SU].
+      rewrite gts_ids_group in ND, GN. destruct (nd_group _ _ _ _ ND) as (NDU & NDn & Nns & Nsk & Nsu & Disj).
+      rewrite enter_own_S in E. cbv zeta in E.
+      set (s0 := set_done s n (Some false)) in *.
+      pose proof (oof_gen_start_enter tk _ _ _ _ _ _ _ E O) as O1.
+      destruct (gen_start tk f s0 n) as [s1 g] eqn:Es. cbn [fst] in O1.
+      assert (GN0 : forall x, In x (n :: gts_ids kids) -> startable s0 x = true).
+      { intros x Hx. change (startable s0 x) with (startable s x). apply GN. cbn [In] in *. rewrite in_app_iff. tauto. }
+      assert (W1 : all (g_wf1 vis z0 (defs s0)) [TGroup n kids]).
+      { cbn [all g_wf1]. split; [|exact I]. split; [exact NV|]. split; [exact Dn|exact WK]. }
+      assert (S1 : all (g_st1 s0) [TGroup n kids]).
+      { cbn [all g_st1]. split; [|exact I]. split; [exact Do|]. split; [exact Dq|].
+        eapply (gs_st_frame [] [] s s0); [unfold s0; apply frame_done; apply frame_refl| |exact SK]. intros x Hx []. }
+      destruct (St0 s0 n kids o s1 g Es O1 GN0 W1 S1 NDn (ok_done_invis _ _ _ _ _ NV OK))
+        as (kids' & o1 & Hk & -> & Gs & Dqs & Ks & OK1 & F1 & SD1 & En1).
+      change (tyme s0) with (tyme s) in Hk.
+      assert (Hsub : forall x, In x (ts_ids kids') -> In x (gts_ids kids)).
+      { intro x. apply subl_In. exact (proj1 (tenter_wf vis z0 _ (defs s) _ _ _ _ Hk)). }
+      assert (F01 : frame (n :: gts_ids kids) (n :: gts_ids kids) s s1).
+      { eapply frame_trans; [|exact F1]. unfold s0. apply frame_done. apply frame_refl. }
+      assert (T1 : tyme s1 = tyme s) by (destruct F01 as (-> & _); reflexivity).
+      rewrite T1 in E.
+      set (s2 := set_deeds s1 sid (deeds (get_sched s1 sid) ++ [DDeed n (tyme s)])) in *.
+      assert (F12 : frame [] [sid] s1 s2) by (apply frame_deeds; [now left|apply frame_refl]).
+      assert (F2 : frame (n :: gts_ids kids) (sid :: n :: gts_ids kids) s s2).
+      { eapply frame_trans; [eapply frame_weaken; [| |exact F01]|eapply frame_weaken; [| |exact F12]];
+          intros x Hx; cbn [In] in *; tauto. }
+      assert (SD02 : same_doers s s2).
+      { eapply sd_trans; [|unfold s2; apply sd_deeds, sd_refl].
+        eapply sd_trans; [|exact SD1]. unfold s0. apply sd_done, sd_refl. }
+      assert (Dq2 : deeds (get_sched s2 sid) = deeds (get_sched s sid) ++ [DDeed n (tyme s)]).
+      { unfold s2. rewrite deeds_set_deeds_same. destruct F01 as (_ & _ & _ & FS). rewrite FS; [reflexivity|].
+        intros [Heq|Hx]; [now apply Nns|now apply Nsk]. }
+      assert (GN2 : forall x, In x (gts_ids gs) -> startable s2 x = true).
+      { intros x Hx. rewrite (startable_frame _ _ _ _ _ F2); [apply GN; right; apply in_or_app; now right|].
+        intro Hin. exact (Disj x Hin Hx). }
+      assert (WU2 : all (g_wf1 vis z0 (defs s2)) gs) by (destruct F2 as (_ & -> & _); exact WU).
+      assert (SU2 : all (g_st1 s2) gs).
+      { eapply gs_st_frame; [exact F2| |exact SU]. intros x Hx [Heq|Hin]; [subst x; contradiction|exact (Disj x Hin Hx)]. }
+      assert (Hgk : forall x, In x (n :: gts_ids kids) -> ~ In x (gts_ids gs) /\ ~ In x (sid :: gts_ids gs)).
+      { intros x Hin. split; [exact (Disj x Hin)|].
+        intros [Heq|Hx2]; [|exact (Disj x Hin Hx2)].
+        subst x. destruct Hin as [Hin|Hin]; [now apply Nns|now apply Nsk]. }
+      destruct (En sid gs s2 o1 s' r E O GN2 WU2 SU2 NDU (ok_deeds _ _ _ _ _ OK1))
+        as (its & o' & Hp & -> & Dq' & G' & OK' & F' & SD' & En').
+      change (tyme s2) with (tyme s1) in Hp. rewrite T1 in Hp.
+      rewrite tenter_cons, tenter1_group, Hk, Hp. rewrite Dq', Dq2, <- app_assoc. rewrite gts_ids_group.
+      eexists _, _. split; [reflexivity|]. split; [reflexivity|]. split; [reflexivity|].
+      split; [|split; [exact OK'|split; [|split]]].
+      * change (ts_ok s' (IGroup n 1 (tyme s) kids' :: its)) with (t_ok1 s' (IGroup n 1 (tyme s) kids') /\ ts_ok s' its).
+        split; [|exact G'].
+        assert (G3 : ts_ok s' [IGroup n 1 (tyme s) kids']).
+        { apply (ts_ok_frame (gts_ids gs) (sid :: gts_ids gs) s2 s' _ F').
+          - intros x Hx. rewrite ts_ids_group, app_nil_r in Hx. apply Hgk.
+            destruct Hx as [<-|Hx]; [now left|right; now apply Hsub].
+          - apply (ts_ok_frame [] [sid] s1 s2 _ F12).
+            + intros x Hx. split; [intros []|]. intros [Heq|[]]. subst x.
+              rewrite ts_ids_group, app_nil_r in Hx.
+              destruct Hx as [Hx|Hx]; [now apply Nns|apply Nsk; now apply Hsub].
+            + cbn [all t_ok1]. auto. }
+        exact (proj1 G3).
+      * eapply frame_trans; [eapply frame_weaken; [| |exact F2]|eapply frame_weaken; [| |exact F']];
+          intros x Hx; cbn [In] in *; rewrite ?in_app_iff in *; tauto.
+      * eapply sd_trans; eassumption.
+      * intros x Hx Hn. rewrite ts_ids_group in Hn.
+        assert (Hn' : n <> x /\ ~ In x (ts_ids kids') /\ ~ In x (ts_ids its)).
+        { cbn [In] in Hn. rewrite in_app_iff in Hn. tauto. }
+        destruct Hn' as (Hn1 & Hn2 & Hn3).
+        assert (Hx' : In x (gts_ids kids) \/ In x (gts_ids gs)).
+        { cbn [In] in Hx. rewrite in_app_iff in Hx. destruct Hx as [Heq|Hx]; [now subst x|exact Hx]. }
+        destruct Hx' as [Hin|Hx']; [|now apply En'].
+        destruct (Hgk x (or_intror Hin)) as [Hg1 Hg2].
+        eapply endedid_frame; [exact F'|exact Hg1|exact Hg2|].
+        eapply endedid_frame; [exact F12|intros []| |apply En1; [exact Hin|exact Hn2]].
+        intros [Heq|[]]. subst x. now apply Nsk.
+Qed.
+
+Lemma enter_all' : forall f, enter_at' f /\ start_at' f.
+Proof.
+  induction f as [|f [En St]].
+  - split.
+    + intros sid gs s o s' r E O. rewrite enter_own_O in E. inversion E; subst; discriminate.
+    + intros s n kids o s' r E O. rewrite gen_start_O in E. inversion E; subst; discriminate.
+  - split; [now apply enter_step'|now apply start_from_enter'].
+Qed.
+
 End HRun.
